@@ -119,6 +119,11 @@ type internalStruct struct {
 	SliceValuePointerNum uint32            `json:",omitempty"`
 	SliceValueType       string            `json:",omitempty"`
 	SliceValues          []*internalStruct `json:",omitempty"`
+
+	// NamedType is the registered name of a named map or slice type (empty: the unnamed map / slice type)
+	NamedType string `json:",omitempty"`
+	// IsArray tells an array from a slice; its length is the number of SliceValues
+	IsArray bool `json:",omitempty"`
 }
 
 func internalMarshal(v any) (*internalStruct, error) {
@@ -167,6 +172,10 @@ func internalMarshal(v any) (*internalStruct, error) {
 
 		for i := 0; i < rt.NumField(); i++ {
 			field := rt.Field(i)
+			if field.PkgPath != "" && field.Anonymous {
+				// its promoted fields are exported but cannot be reached through reflection: refuse rather than drop them
+				return nil, fmt.Errorf("unsupported embedded unexported field %s of type: %v", field.Name, rt)
+			}
 			// 只处理可导出的字段
 			if field.PkgPath == "" {
 				k := field.Name
@@ -206,6 +215,13 @@ func internalMarshal(v any) (*internalStruct, error) {
 			return nil, fmt.Errorf("unknown type: %v", rvt)
 		}
 		ret.MapValueType = key
+		if rt.Name() != "" {
+			// a named map type has to be registered like any named type
+			if key, ok = rm[rt]; !ok {
+				return nil, fmt.Errorf("unknown type: %v", rt)
+			}
+			ret.NamedType = key
+		}
 
 		ret.MapValues = make(map[string]*internalStruct)
 
@@ -239,6 +255,14 @@ func internalMarshal(v any) (*internalStruct, error) {
 			return nil, fmt.Errorf("unknown type: %v", rvt)
 		}
 		ret.SliceValueType = key
+		ret.IsArray = rt.Kind() == reflect.Array
+		if rt.Name() != "" {
+			// a named slice or array type has to be registered like any named type
+			if key, ok = rm[rt]; !ok {
+				return nil, fmt.Errorf("unknown type: %v", rt)
+			}
+			ret.NamedType = key
+		}
 
 		length := rv.Len()
 		ret.SliceValues = make([]*internalStruct, length)
@@ -344,7 +368,13 @@ func internalUnmarshal(v *internalStruct) (any, error) {
 		rvt = resolvePointerNum(v.MapValuePointerNum, rvt)
 
 		// todo: if all values are based, can use unmarshal instead of internalUnmarshal
-		result, dResult := createValueFromType(reflect.MapOf(rkt, rvt))
+		mt := reflect.MapOf(rkt, rvt)
+		if len(v.NamedType) > 0 {
+			if mt, ok = m[v.NamedType]; !ok || mt.Kind() != reflect.Map {
+				return nil, fmt.Errorf("unknown map type key: %v", v.NamedType)
+			}
+		}
+		result, dResult := createValueFromType(resolvePointerNum(v.PointerNum, mt))
 		for marshaledMapKey, internalValue := range v.MapValues {
 			prkv := reflect.New(rkt)
 			err := sonic.UnmarshalString(marshaledMapKey, prkv.Interface())
@@ -373,17 +403,32 @@ func internalUnmarshal(v *internalStruct) (any, error) {
 	rvt = resolvePointerNum(v.SliceValuePointerNum, rvt)
 
 	// todo: if all slice values are based, can use unmarshal instead of internalUnmarshal
-	result, dResult := createValueFromType(reflect.SliceOf(rvt))
-	for _, internalValue := range v.SliceValues {
+	st := reflect.SliceOf(rvt)
+	if v.IsArray {
+		st = reflect.ArrayOf(len(v.SliceValues), rvt)
+	}
+	if len(v.NamedType) > 0 {
+		if st, ok = m[v.NamedType]; !ok || (st.Kind() != reflect.Slice && st.Kind() != reflect.Array) {
+			return nil, fmt.Errorf("unknown slice type key: %v", v.NamedType)
+		}
+	}
+	result, dResult := createValueFromType(resolvePointerNum(v.PointerNum, st))
+	for i, internalValue := range v.SliceValues {
 		value, err := internalUnmarshal(internalValue)
 		if err != nil {
 			return nil, fmt.Errorf("unmarshal slice[%s] fail: %v", v.SliceValueType, err)
 		}
-		if value == nil {
-			// empty value
-			dResult.Set(reflect.Append(dResult, reflect.New(rvt).Elem()))
+		elem := reflect.New(rvt).Elem() // empty value
+		if value != nil {
+			elem = reflect.ValueOf(value)
+		}
+		if dResult.Kind() == reflect.Array {
+			if i >= dResult.Len() {
+				return nil, fmt.Errorf("unmarshal array[%s] fail: %d values for length %d", v.SliceValueType, len(v.SliceValues), dResult.Len())
+			}
+			dResult.Index(i).Set(elem)
 		} else {
-			dResult.Set(reflect.Append(dResult, reflect.ValueOf(value)))
+			dResult.Set(reflect.Append(dResult, elem))
 		}
 	}
 	return result.Interface(), nil
